@@ -31,8 +31,8 @@ CHECKS.update({
    note="Trusted: sim environment; one database per instance; samples are linearised by reading under one lock.",
    tech="explicit-state DFS by replay with invariant monitors at every emission and every quiescent state"),
  "C17": dict(cat="model_checking", ref="5/C17",
-   text="Stateless schedule enumeration of N concurrent writers on one real store, each stepped through the points begin / after append / after head persisted / after view update: every interleaving for N=2 (and N=3 in thorough), deviation-bounded for N up to 8; each execution runs to completion, then the instance is closed, reopened on the same cache and loaded. Acknowledged calls must have returned pairwise distinct entries, each listed exactly once before and after the restart.",
-   note="Trusted: sim environment (atomic durable cache puts); interleaving points are the H4 hooks, code between them runs freely.",
+   text="Stateless schedule enumeration of N concurrent writers on one real store, each stepped through the points begin / after append / after head persisted / after view update: every interleaving for N=2 (and N=3 in thorough), deviation-bounded for N up to 8; lock-granularity units build the store and index files with a sync shim so that every Lock/RLock is a schedule point (two writers; one writer against a concurrent replication merge; preemption-bounded); each execution runs to completion, then the instance is closed, reopened on the same cache and loaded. Acknowledged calls must have returned pairwise distinct entries, each listed exactly once before and after the restart.",
+   note="Trusted: sim environment (atomic durable cache puts); interleaving points are the H4/H5 hooks and, in the lock-granularity units, every Lock/RLock of stores/basestore and the three index files (mc/shim/vsync.go.txt applied through go build -overlay by tools/shim_overlay.py; the files are /repo's own); code between points runs freely.",
    tech="stateless model checking: exhaustive / deviation-bounded schedule enumeration of the real write path under a cooperative scheduler at hooked points"),
  "C03": dict(cat="exploration", ref="5/C03",
    text="Exhaustive enumeration of a finite case family on fresh worlds: write list x controller (ipfs; simple and orbitdb via manifest; simple via the store constructor) x route (local write, sync, topic, direct channel, ancestor behind an authorised colluder) x forging mode (five ways of faking the author fields, built from raw entry structs and signed with the attacker's keys) x position among honest heads. The forged entry must be absent from every victim log and view; the local write must fail and change nothing.",
